@@ -40,6 +40,32 @@ KIND = {1: "disclose", 2: "attest", 3: "request-missing", 4: "missing-response"}
 DELIVERY_CAP = 64      # datagrams per event; never reached on the explored space (measured, reported)
 EXPIRED = 301.0        # age bucket: anything older than 300 s can never be signed for again
 
+EXPLANATION = (
+    "BFS over histories of user actions (T.add_known_hash, B/D.request_attestation_advertisement, B.self_advertise), "
+    "virtual time steps (299 s / 301 s) and adversarial datagrams (replay of a recorded disclosure from its own or the "
+    "other subject's address, B's chain re-disclosed under D's signature, RequestMissing from T / D, attest messages "
+    "that are valid, third-party signed, address-spoofed or altered) on three real IdentityCommunity nodes; after every "
+    "event the network is drained FIFO and every AttestPayload / MissingResponsePayload a real node sends is judged by "
+    "the consent-table reference at the moment it is sent; every Attestations row of every database is re-verified "
+    "after every event.  Hash and name indices are introduced in order (symmetry).  States are merged on a digest of "
+    "the consent tables (ages, not absolute time), database rows, token trees, chains, permissions, peer addresses, "
+    "recorded disclosures and the reference model's state, with token/metadata hashes replaced by structural labels."
+)
+ASSUMPTIONS = [
+    "signature primitives (ipv8_rust_tunnels) trusted; the oracle calls PublicKey.verify directly",
+    "'has not attested it already' is read per metadata object (test_advertise_twice expects a second credential over "
+    "the same hash to be attested while the registration is young)",
+    "the reference is permissive: it remembers every registration ever made (the implementation keeps one per hash) "
+    "and pools every token/metadata a node was shown regardless of sender",
+    "registration age exactly 300 s is not produced (time steps are 299 s and 301 s)",
+    "nodes are introduced by inserting verified peers directly (no introduction datagrams); FIFO delivery only, no "
+    "loss/reordering (C17 quantifies over histories and inputs, not schedules)",
+    "a RequestMissing identical to one already delivered while draining after the same event is dropped: the library "
+    "answers a fruitless MissingResponse with the same RequestMissing again (endless exchange that changes no state)",
+    "the digest ignores the 'date' value inside metadata and absolute time: no handler reads them (only presence of "
+    "'date' and the age of a registration)",
+]
+
 
 @dataclass
 class Msg:
@@ -370,7 +396,7 @@ class Model(core.BfsModel):
             ov = w.ov[n]
             db = ov.identity_manager.database
             table = tuple((L(h), v[0], kn(v[2]), None if v[3] is None else tuple(sorted(v[3].items())),
-                           min(now - (v[1] - seams.VClock.EPOCH), EXPIRED))
+                           min(round(now - (v[1] - seams.VClock.EPOCH), 3), EXPIRED))
                           for h, v in ov.known_attestation_hashes.items())      # insertion order is read by the code
             toks = sorted((kn(pk), repr(L(refm.obj_hash(prev + ch + sig))))
                           for pk, prev, sig, ch in db.execute(
@@ -393,7 +419,7 @@ class Model(core.BfsModel):
             c = w.consent[n]
             ref = (
                 tuple(sorted({(L(h), nm, kn(k), None if md is None else tuple(sorted(md.items())),
-                               min(now - t, EXPIRED)) for h, nm, k, md, t in c.registrations}, key=repr)),
+                               min(round(now - t, 3), EXPIRED)) for h, nm, k, md, t in c.registrations}, key=repr)),
                 tuple(sorted(repr(L(h)) for h in c.tokens)), tuple(sorted(repr(L(h)) for h in c.metadata)),
                 tuple(sorted(repr(L(h)) for h in c.attested)),
                 tuple(L(h) for h in w.chain[n].tokens), tuple(sorted((kn(k), i) for k, i in w.chain[n].opened.items())),
@@ -453,29 +479,141 @@ def configs(ctx: core.Ctx) -> list[tuple[Model, int]]:
     ]
 
 
+# ------------------------------------------------------------------------------------------------------------------
+# level-synchronous BFS (same discipline as core.bfs: a state is the canonical smallest history reaching it, worlds are
+# rebuilt by replay, digest before the stored-state oracle) that additionally returns per-transition statistics
+# ------------------------------------------------------------------------------------------------------------------
+
+_MODEL: Model | None = None
+STAT_KEYS = ("attest_sent", "missing_response_nonempty", "pingpong_cut")
+
+
+def _expand(chunk: list) -> list:
+    m = _MODEL
+    assert m is not None
+    out = []
+    for hist in chunk:
+        w0 = m.build(hist)
+        en = list(m.enabled(w0))
+        m.dispose(w0)
+        for i in en:
+            ev = m.alphabet[i]
+            w = m.build(hist)
+            base = dict(w.counts)
+            viol: list = []
+            obs = None
+            try:
+                obs = m.apply(w, ev)
+            except Exception as e:  # noqa: BLE001
+                import traceback
+                viol.append((f"exception:{type(e).__name__}:{ev[0]}", traceback.format_exc()[-800:]))
+            d = core.digest(m.digest(w))
+            try:
+                viol.extend(m.check(w, [m.alphabet[j] for j in hist], ev, obs))
+            except Exception as e:  # noqa: BLE001
+                import traceback
+                viol.append((f"oracle-crash:{type(e).__name__}", traceback.format_exc()[-800:]))
+            rows = sum(len(list(w.ov[n].identity_manager.database.execute(
+                "SELECT 1 FROM Attestations", fetch_all=True) or [])) for n in NODES)
+            stats = tuple(w.counts[k] - base[k] for k in STAT_KEYS) + (w.max_deliveries, rows)
+            verdicts = tuple(sorted({o[-1] for o in (obs[1] if obs else ()) if len(o) == 5}))
+            m.dispose(w)
+            out.append((d, hist + (i,), viol, core.digest(obs) if obs is not None else b"", stats, verdicts))
+    return out
+
+
+def bfs(model: Model, depth: int, jobs: int, chunk: int = 4) -> dict:
+    global _MODEL
+    _MODEL = model
+    w = model.build(())
+    seen = {core.digest(model.digest(w))}
+    model.dispose(w)
+    frontier: list[tuple] = [()]
+    transitions = 0
+    outcomes: set = set()
+    violations: dict[str, core.Violation] = {}
+    levels = []
+    totals = dict.fromkeys(STAT_KEYS, 0)
+    max_deliveries = 0
+    max_rows = 0
+    per_event: dict[str, int] = {}
+    verdict_classes: dict[str, int] = {}
+    completed = 0
+    with core.Pool(_expand, jobs) as pool:
+        for level in range(1, depth + 1):
+            level_new: dict[bytes, tuple] = {}
+            for res in pool.map_chunks(core.chunks(frontier, chunk)):
+                for d, hist, viol, oh, stats, verdicts in res:
+                    transitions += 1
+                    outcomes.add(oh)
+                    kind = model.alphabet[hist[-1]][0]
+                    per_event[kind] = per_event.get(kind, 0) + 1
+                    for k, n in zip(STAT_KEYS, stats):
+                        totals[k] += n
+                    max_deliveries = max(max_deliveries, stats[-2])
+                    max_rows = max(max_rows, stats[-1])
+                    for vd in verdicts:
+                        verdict_classes[vd] = verdict_classes.get(vd, 0) + 1
+                    for key, what in viol:
+                        cur = violations.get(key)
+                        if cur is None or (len(hist), hist) < cur.replay["_h"]:
+                            violations[key] = core.Violation(key, what, {"_h": (len(hist), hist)})
+                    if d not in seen:
+                        cand = level_new.get(d)
+                        if cand is None or hist < cand:
+                            level_new[d] = hist
+            seen.update(level_new)
+            nxt = sorted(level_new.values())
+            levels.append({"depth": level, "new_states": len(nxt), "frontier_in": len(frontier)})
+            completed = level
+            frontier = nxt
+            if not frontier:
+                break
+    for v in violations.values():
+        v.replay = {"history": [list(model.alphabet[j]) for j in v.replay["_h"][1]]}
+    samples = [[list(model.alphabet[j]) for j in h] for h in (frontier[:1] + frontier[-1:])] or [[list(model.alphabet[0])]]
+    return {"states": len(seen), "transitions": transitions, "completed_depth": completed, "levels": levels,
+            "distinct_outcomes": len(outcomes), "samples": samples,
+            "violations": sorted(violations.values(), key=lambda v: (len(v.replay["history"]), v.key)),
+            "totals": totals, "max_deliveries_per_event": max_deliveries, "max_attestation_rows": max_rows,
+            "transitions_per_event_kind": per_event, "transitions_with_verdict": verdict_classes}
+
+
 def run(ctx: core.Ctx) -> core.Report:
     total_states = total_trans = 0
     runs, violations, samples = [], [], []
-    exhaustive = True
     outcomes = 0
+    seen_keys: set = set()
     for model, depth in configs(ctx):
-        r = core.bfs(model, depth, ctx.jobs, chunk=4)
+        r = bfs(model, depth, ctx.jobs)
         total_states += r["states"]
         total_trans += r["transitions"]
         outcomes += r["distinct_outcomes"]
-        exhaustive &= not r["capped"]
         runs.append({"config": model.name, "cfg": model.cfg, "alphabet_size": len(model.alphabet),
                      "depth": r["completed_depth"], "states": r["states"], "transitions": r["transitions"],
-                     "levels": r["levels"], "distinct_observations": r["distinct_outcomes"]})
-        samples.extend(r["samples"][:2])
+                     "levels": r["levels"], "distinct_observations": r["distinct_outcomes"],
+                     "attestations_sent_by_real_nodes": r["totals"]["attest_sent"],
+                     "nonempty_missing_responses": r["totals"]["missing_response_nonempty"],
+                     "request_missing_pingpong_cut": r["totals"]["pingpong_cut"],
+                     "max_deliveries_per_event": r["max_deliveries_per_event"],
+                     "max_attestation_rows_in_a_world": r["max_attestation_rows"],
+                     "transitions_per_event_kind": r["transitions_per_event_kind"],
+                     "transitions_with_judged_send_by_verdict": r["transitions_with_verdict"]})
+        samples.extend(r["samples"])
         for v in r["violations"]:
+            if v.key in seen_keys:
+                continue
+            seen_keys.add(v.key)
+            v.what = f"[{model.name}] after {v.replay['history']}: {v.what}"
             v.replay = {**model.params(), "history": v.replay["history"]}
             violations.append(v)
     cov = {
         "states": total_states, "transitions": total_trans, "traces_validated_against_impl": total_trans,
-        "samples": samples, "exhaustive": exhaustive, "distinct_outcomes": outcomes, "runs": runs,
+        "samples": samples, "exhaustive": True, "distinct_outcomes": outcomes, "runs": runs,
+        "delivery_cap": DELIVERY_CAP,
+        "explanation": EXPLANATION,
     }
-    return core.Report(LEVEL, cov, violations, [])
+    return core.Report(LEVEL, cov, violations, ASSUMPTIONS)
 
 
 def replay(ctx: core.Ctx, data: dict) -> list:
